@@ -124,7 +124,22 @@ func checkC20(c *Ctx) Meta {
 			tests := boolTestsOf(h, decide)
 			okAllow, _ := unreachableWhenCut(h, boolEdgeCut(tests, true), serve)
 			okDeny, _ := unreachableWhenCut(h, boolEdgeCut(tests, false), deny)
-			okArg := backSlice(decide.Call.Args[0]).hasField("net/http.Request", "RemoteAddr")
+			// the decision is taken on the peer address of the connection and on nothing else the client
+			// controls: no other field of the request (headers, URL, form) and no net/http accessor may flow
+			// into the argument (a helper that prefers X-Forwarded-For lets any client name its own origin)
+			argSlice := backSlice(decide.Call.Args[0])
+			okArg := argSlice.hasField("net/http.Request", "RemoteAddr")
+			for v := range argSlice.vals {
+				if t, f, _, ok := fieldOfAddr(v); ok && t == "net/http.Request" && f != "RemoteAddr" {
+					okArg = false
+				}
+				if t, f, _, ok := fieldOfValue(v); ok && t == "net/http.Request" && f != "RemoteAddr" {
+					okArg = false
+				}
+				if cl, ok := v.(*ssa.Call); ok && (strings.Contains(calleeID(cl), "net/http.") || strings.Contains(calleeID(cl), "net/url.")) {
+					okArg = false
+				}
+			}
 			// the inner handler served is the wrapper's parameter h; the 403 constant
 			okInner := true
 			for _, s := range serve {
